@@ -152,6 +152,8 @@ type planItem struct {
 	random   bool   // all algorithm dimensions random
 	defaults bool   // nothing pinned: client and server defaults
 	steer    string // "lz"/"hb": the Go server's ephemeral value is chosen so that K has this shape
+	prefDim  string // preference-order case: the dimension whose client offer has 2-3 names in an order unlike the server's
+	prefKind int    // 0 reversed, 1 rotated
 	av       *authVariant
 }
 
@@ -228,6 +230,15 @@ func buildPlan(l *algLists, thorough bool) (plan []planItem, skippedKnown int) {
 			plan = append(plan, planItem{class: "steer", dim: "kex=" + k + ",K=" + mode, c: c, size: size, rekey: rk, steer: mode})
 		}
 	}
+	nper := 2
+	if thorough {
+		nper = 8
+	}
+	for _, d := range prefDims {
+		for k := 0; k < nper; k++ {
+			plan = append(plan, planItem{class: "pref", dim: fmt.Sprintf("preference-order:%s:%s", d, []string{"reversed", "rotated"}[k%2]), c: bg(), size: 32768, rekey: rkClient + k/2%2, prefDim: d, prefKind: k})
+		}
+	}
 	for _, rk := range []int{rkNone, rkBoth} {
 		// nothing pinned on either side: OpenSSH's default proposal against the package's default config
 		plan = append(plan, planItem{class: "defaults", dim: "defaults,rekey=" + rkNames[rk], c: sshCase{KeyName: bgKey, Cmd: "cat"}, size: 65536, rekey: rk, defaults: true})
@@ -292,6 +303,24 @@ func (p planItem) resolve(l *algLists, r *rand.Rand) (sshCase, authVariant, int)
 			}
 		}
 		av = mon.Pick(r, avs)
+	}
+	if p.prefDim != "" {
+		// the lists are in the Go server's order (Supported ++ Insecure; host keys
+		// in AddHostKey order); what the server really sent is read from the log
+		switch p.prefDim {
+		case "kex":
+			o := prefOffer(r, slices.DeleteFunc(slices.Clone(l.kex), func(k string) bool { return strings.HasSuffix(k, "@libssh.org") }), p.prefKind)
+			c.KexOffer, c.Kex = strings.Join(o, ","), o[0]
+		case "hostkey":
+			o := prefOffer(r, slices.DeleteFunc(goServerOrder("hostkey"), func(h string) bool { return !slices.Contains(l.hostKey, h) }), p.prefKind)
+			c.HostKeyOffer, c.HostKeyAlg = strings.Join(o, ","), o[0]
+		case "cipher":
+			o := prefOffer(r, l.cipher, p.prefKind)
+			c.CipherOffer, c.Cipher = strings.Join(o, ","), o[0]
+		case "mac":
+			o := prefOffer(r, l.mac, p.prefKind) // background cipher aes128-ctr: MAC in use, no CBC
+			c.MACOffer, c.MAC = strings.Join(o, ","), o[0]
+		}
 	}
 	c.KeyName, c.UseCert, c.PubkeyAlg = av.key, av.cert, av.pinAlg
 	rk := p.rekey
@@ -497,6 +526,14 @@ func (e *env) runOpenSSH(p planItem, i int64, r *rand.Rand) {
 		"user_key": c.KeyName, "user_cert": c.UseCert, "pubkey_alg": c.PubkeyAlg, "cmd": c.Cmd, "payload_len": len(c.Payload),
 		"rekey": rkNames[rk], "argv": strings.Join(c.args(e.mt, port), " "),
 	}
+	prefOffer, prefServerFirst := "", ""
+	if p.prefDim != "" {
+		prefOffer = map[string]string{"kex": c.KexOffer, "hostkey": c.HostKeyOffer, "cipher": c.CipherOffer, "mac": c.MACOffer}[p.prefDim]
+		if sp := serverProposal(res.Log); sp != nil {
+			prefServerFirst = serverFirst(sp[p.prefDim], strings.Split(prefOffer, ","))
+		}
+		desc["preference"] = map[string]any{"dimension": p.prefDim, "client_offer": prefOffer, "expected_rfc4253_7_1": strings.Split(prefOffer, ",")[0], "server_preference_would_pick": prefServerFirst}
+	}
 	if steer != nil {
 		served, confirmed, tries, failed := steer.stats()
 		desc["steered_shape_of_K"] = map[string]any{"shape": p.steer, "exchanges_served": served, "confirmed_by_tapped_K": confirmed, "candidates_tried": tries, "search_failures": failed}
@@ -627,6 +664,13 @@ func (e *env) runOpenSSH(p planItem, i int64, r *rand.Rand) {
 	// ---- evidence ----
 	m.Count("openssh_ok", 1)
 	m.Count("openssh_ok_"+p.class, 1)
+	if p.prefDim != "" {
+		if prefServerFirst != "" && prefServerFirst != strings.Split(prefOffer, ",")[0] {
+			m.Count("openssh_pref_first_choices_differ_"+p.prefDim, 1)
+		} else {
+			m.Count("openssh_pref_not_discriminating", 1)
+		}
+	}
 	if steer != nil {
 		_, confirmed, tries, _ := steer.stats()
 		m.Count("openssh_steer_candidates_tried", tries)
@@ -676,7 +720,7 @@ func (e *env) runOpenSSH(p planItem, i int64, r *rand.Rand) {
 		m.Count("openssh_payload_"+sizeClass(len(c.Payload)), 1)
 	}
 	m.Distinct(fmt.Sprintf("openssh %s %s %s %s %s key=%s cert=%v alg=%s size=%s rekey=%s cmd=%s", p.class, c.Kex, c.HostKeyAlg, c.Cipher, c.MAC, c.KeyName, c.UseCert, c.PubkeyAlg, sizeClass(len(c.Payload)), rkNames[rk], strings.Fields(c.Cmd)[0]))
-	if p.class == "mix" || (p.class == "kex" && strings.Contains(c.Kex, "group-exchange")) || (p.class == "steer" && i%3 == 0) {
+	if p.class == "mix" || (p.class == "kex" && strings.Contains(c.Kex, "group-exchange")) || (p.class == "steer" && i%3 == 0) || (p.class == "pref" && i%2 == 0) {
 		delete(desc, "argv")
 		m.Sample(map[string]any{"part": "openssh->go", "case": desc, "ssh_exit": res.Exit, "key_exchanges": len(l.Kex), "client_initiated_rekeys": l.ClientInit, "server_initiated_rekeys": l.ServerInit, "openssh_sign_alg": l.SignAlgs, "go_server": rep.String()})
 	}
@@ -715,7 +759,7 @@ func TestC27(t *testing.T) {
 	m := mon.New(t, "C27")
 	defer m.Done()
 	m.Rule("Part 1 (claimed: Go server <- OpenSSH client): a fixed plan of real /usr/bin/ssh invocations against a real ssh.NewServerConn server on loopback TCP, one algorithm pinned per dimension on the client (-o KexAlgorithms/HostKeyAlgorithms/Ciphers/MACs/PubkeyAcceptedAlgorithms), the server offering everything it implements. " +
-		"Lists = `ssh -Q` ∩ SupportedAlgorithms()+InsecureAlgorithms() computed at run time. Plan: every kex, host key algorithm (plain and -cert-v01 through a @cert-authority line), cipher, MAC and user key/certificate/signature algorithm once against a fixed background (32 KiB or 200 KB echoed through `cat`, re-key forced by RekeyLimit=16K and/or Config.RekeyThreshold=16384), exit-status values, payload sizes {0,1,32 KiB,200 KB} x re-key initiator {none,client,server,both}, sessions in which the shape of K is forced at every exchange (leading 00 + byte < 0x80; top bit set) for every kex whose server-side ephemeral value comes from Config.Rand (curve25519 x2, DH fixed groups, group exchange), PRNG-determined mixed configurations with payloads 0..200000; thorough adds the kex x hostkey and cipher x MAC products. " +
+		"Lists = `ssh -Q` ∩ SupportedAlgorithms()+InsecureAlgorithms() computed at run time. Plan: every kex, host key algorithm (plain and -cert-v01 through a @cert-authority line), cipher, MAC and user key/certificate/signature algorithm once against a fixed background (32 KiB or 200 KB echoed through `cat`, re-key forced by RekeyLimit=16K and/or Config.RekeyThreshold=16384), preference-order cases (client offers 2-3 algorithms of one dimension reversed/rotated against the server's order, first choices differing; expectation RFC 4253 7.1 = the client's first supported choice, in both directions), exit-status values, payload sizes {0,1,32 KiB,200 KB} x re-key initiator {none,client,server,both}, sessions in which the shape of K is forced at every exchange (leading 00 + byte < 0x80; top bit set) for every kex whose server-side ephemeral value comes from Config.Rand (curve25519 x2, DH fixed groups, group exchange), PRNG-determined mixed configurations with payloads 0..200000; thorough adds the kex x hostkey and cipher x MAC products. " +
 		"A case is distinct by (class, algorithms, key, size class, re-key mode). Verdict = OpenSSH's exit status and -vvv account + byte equality + the Go side's Algorithms()/auth/exec record. " +
 		"Part 2 (substitutes, NOT OpenSSH interoperability evidence): real Go client against sshref.Peer (independent implementation) in server role for every kex it implements and every cipher x MAC; real Go client against steerPeer (independent server that picks its ephemeral key last) with the same two shapes of K forced for curve25519, ECDH P-256/384/521 and DH group1/14/16; real Go client <-> real Go server for every kex and host key algorithm with the captured byte stream decrypted by sshref from the tapped K/H and the exchange hash recomputed by ref/sshkexhash.")
 	m.Assume("OpenSSH 9.x client (/usr/bin/ssh, ssh-keygen) is the oracle of part 1; its -vvv log format is parsed (a log that cannot be parsed is inconclusive, never a violation)")
@@ -767,6 +811,9 @@ func TestC27(t *testing.T) {
 	m.Gate("openssh_ok_userkey", nav, "every user key type / certificate / signature algorithm authenticated")
 	m.Gate("openssh_exit_status_nonzero", 4, "non-zero exit-status values delivered")
 	m.Gate("openssh_rekeys_client_initiated", 20, "re-keys started by the OpenSSH client (RekeyLimit)")
+	for _, d := range prefDims {
+		m.Gate("openssh_pref_first_choices_differ_"+d, 2, "OpenSSH client offering 2-3 "+d+" algorithms in an order unlike the Go server's, first choices differing (server's order read from the client's log): the client's first choice must be negotiated in both directions and the session must work")
+	}
 	nsteer := 0
 	var unsteerable []string
 	for _, k := range lists.kex {
